@@ -14,6 +14,7 @@ static DocOpts opts() {
     o.cfg.max_depth = 9;  // with the root: at most 10 nested objects
     o.cfg.max_fan = 6;
     o.force_object_root = true;
+    o.rare_deep = 5;  // BinsonValue is copied by value on the way up: deserialising a 2500-level chain is quadratic
     return o;
 }
 
